@@ -707,7 +707,20 @@ class Interp(ModelMixin):
         return res
 
     def st_FunctionDef(self, stmt, st):
-        raise AnalysisError(f'nested function definition {stmt.name} at line {stmt.lineno}')
+        """A nested helper function: a closure over a snapshot of the enclosing variables (like a lambda with statements).
+        Generators, decorators, nonlocal/global and *args/**kwargs are not supported."""
+        a = stmt.args
+        if stmt.decorator_list or a.vararg or a.kwarg or a.kwonlyargs or a.posonlyargs:
+            raise AnalysisError(f'nested function definition {stmt.name} at line {stmt.lineno} uses decorators or variadic parameters')
+        for n in ast.walk(stmt):
+            if isinstance(n, (ast.Yield, ast.YieldFrom, ast.Nonlocal, ast.Global)):
+                raise AnalysisError(f'nested function definition {stmt.name} at line {stmt.lineno} is a generator or rebinds outer names')
+        params = {x.arg for x in a.args}
+        free = {n.id for n in ast.walk(stmt) if isinstance(n, ast.Name)} - params
+        captured = tuple(sorted(((n, st.frame.env[n]) for n in free if n in st.frame.env and n != stmt.name), key=lambda kv: kv[0]))
+        self.lambdas[id(stmt)] = (stmt, st.frame.func)
+        st.frame.env[stmt.name] = LamV(id(stmt), captured)
+        return [(NEXT, st)]
 
     def st_ClassDef(self, stmt, st):
         raise AnalysisError(f'nested class definition {stmt.name} at line {stmt.lineno}')
@@ -1440,9 +1453,22 @@ class Interp(ModelMixin):
                         nxt.append((None, s2))
             pre = nxt
         for _, s in pre:
-            for v, s2 in self.ev(e.body, s):
-                s2.frames.pop()
-                outs.append((v, s2))
+            if isinstance(e, ast.Lambda):
+                for v, s2 in self.ev(e.body, s):
+                    s2.frames.pop()
+                    outs.append((v, s2))
+            else:               # nested def: statements
+                for ctl, s2 in self.ex_block(e.body, s):
+                    if ctl == NEXT:
+                        val = NoneV(('noret', e.name))
+                    elif isinstance(ctl, tuple) and ctl[0] == 'ret':
+                        val = ctl[1]
+                    elif isinstance(ctl, tuple) and ctl[0] == 'raise':
+                        val = Raise(ctl[1])
+                    else:
+                        raise AnalysisError(f'break/continue escaped nested function {e.name}')
+                    s2.frames.pop()
+                    outs.append((val, s2))
         return outs
 
     def ev_NamedExpr(self, e, st):
